@@ -178,7 +178,13 @@ class DropletTrack:
             dtype = [("time", "f8")] + d0.data.dtype.descr
             result = np.empty(len(self), dtype=dtype)
             for i in range(len(self)):
-                result[i] = (self.times[i],) + self.droplets[i].data.tolist()
+                d = self.droplets[i]
+                if d.__class__ is not d0.__class__ or d.data.dtype != d0.data.dtype:
+                    raise TypeError(
+                        "DropletTrack data cannot be stored contiguously if it contains "
+                        "droplets of different classes or data layouts"
+                    )
+                result[i] = (self.times[i],) + d.data.tolist()
             return result  # type:ignore
 
     def __iter__(self):
